@@ -24,12 +24,11 @@ def make_ignored(patterns, root):
         r = rel_to(rel, root)
         if r == ".":
             return False
-        # a path is excluded if it or one of its ancestors matches
+        # a path is excluded if it or one of its ancestors is matched (matching as the tool calls it: no trailing slash,
+        # so a directory pattern "d/" excludes everything below d but not the directory entry d itself)
         parts = r.split("/")
         for i in range(1, len(parts) + 1):
-            sub = "/".join(parts[:i])
-            d = is_dir if i == len(parts) else True
-            if spec.match_file(sub + ("/" if d else "")) or spec.match_file(sub):
+            if spec.match_file("/".join(parts[:i])):
                 return True
         return False
 
